@@ -56,6 +56,46 @@ def strict_bound_facts(ctx, bb, param_tree):
     return strict, weak
 
 
+def _is_stride_len(t, recv):
+    return t[0] == "call" and t[1] == ("Stride", "len") and bool(t[2]) and t[2][0] == recv
+
+
+def stride_pos_in_range(ctx, bb, pos, recv, strict):
+    """the position handed to Stride::index is below Stride::len(recv) at block bb:
+    (a) a dominating strict comparison pos < len(recv); or
+    (b) the stride is known to be non-empty there (some x < len(recv), len(recv) != 0 / > 0 / >= 1,
+        or !is_empty(recv)) and pos is the constant 0 or exactly len(recv) - 1 (plain subtraction)."""
+    from expr import nobb
+    if any(_is_stride_len(s, recv) for s in strict):
+        return True
+    nonempty = False
+    for f in facts_at(ctx, bb):
+        op = f[0]
+        if op in CMP_OPS:
+            a, b = f[1], f[2]
+            if op in ("Gt", "Ge"):
+                op = {"Gt": "Lt", "Ge": "Le"}[op]
+                a, b = b, a
+            if op == "Lt" and _is_stride_len(b, recv):
+                nonempty = True  # unsigned x < len
+            elif op == "Le" and _is_stride_len(b, recv) and a[0] == "const" and a[1].isdigit() and int(a[1]) >= 1:
+                nonempty = True
+            elif op == "Ne" and ((_is_stride_len(a, recv) and b == ("const", "0")) or
+                                 (_is_stride_len(b, recv) and a == ("const", "0"))):
+                nonempty = True
+        elif op == "truthy" and f[2] is False:
+            t = f[1]
+            if t[0] == "call" and t[1] == ("Stride", "is_empty") and t[2] and t[2][0] == recv:
+                nonempty = True
+    if not nonempty:
+        return False
+    if pos == ("const", "0"):
+        return True
+    if pos[0] == "bin" and pos[1] == "Sub" and _is_stride_len(pos[2], recv) and pos[3] == ("const", "1"):
+        return True
+    return False
+
+
 def find_methods(F, adt, name):
     return [b for b in F.bodies.values() if b.kind == "AssocFn" and b.self_adt == adt and
             b.name == name and b.trait is None and not b.in_tests()]
@@ -259,8 +299,7 @@ def r_bound_stride_sites(F, R):
             recv = trees(ctx, ctx.org.operand(t["args"][0]))
             pos = operand_tree(ctx, t["args"][1])
             strict, weak = strict_bound_facts(ctx, bi, pos)
-            ok = any(s[0] == "call" and s[1] == ("Stride", "len") and s[2] and s[2][0] == recv
-                     for s in strict)
+            ok = stride_pos_in_range(ctx, bi, pos, recv, strict)
             R.check("R-BOUND", b.label(), ok, construct="Stride::index guarded by < Stride::len",
                     where="%s:%s" % (b.file, t["line"]),
                     detail="position %s on %s; strict guards %s; non-strict %s" % (
@@ -299,8 +338,7 @@ def r_index_failstop(F, R):
                 recv = trees(ctx, ctx.org.operand(args[0]))
                 pos = operand_tree(ctx, args[1])
                 strict, weak = strict_bound_facts(ctx, bi, pos)
-                ok = any(s[0] == "call" and s[1] == ("Stride", "len") and s[2] and s[2][0] == recv
-                         for s in strict)
+                ok = stride_pos_in_range(ctx, bi, pos, recv, strict)
                 sites.append((bi, ok, "Stride::index under guard %s" % [show(s) for s in strict]))
         good = {bi for (bi, ok, _) in sites if ok}
         ok = bool(sites) and all(o for (_, o, _) in sites) and not b.can_return_avoiding(good)
